@@ -538,6 +538,7 @@ impl Property for C18 {
             if bits & ((1 << 4) | (1 << 5) | (1 << 8) | (1 << 9)) != 0 {
                 ctx.out.nontrivial += 1;
             }
+            ctx.begin(|| json!({"kind": "conformance", "bits": bits}));
             match conform(bits) {
                 Ok(o) => {
                     ctx.outcome(o);
@@ -564,6 +565,7 @@ impl Property for C18 {
                 ctx.out.transitions += 1;
                 ctx.out.nontrivial += 1;
                 ctx.hit("semantic_mutants");
+                ctx.begin(|| json!({"kind": "semantic", "bits": bits, "mutation": which}));
                 match try_doc(&doc) {
                     Outcome::Error(e) => ctx.outcome(vcheck::fp(&(which, e.split(':').next().map(str::to_string)))),
                     Outcome::Built(n) => ctx.violation(
@@ -599,6 +601,7 @@ impl Property for C18 {
                     ctx.out.transitions += 1;
                     ctx.out.nontrivial += 1;
                     ctx.hit("textual_mutants");
+                    ctx.begin(|| json!({"kind": "textual", "base": bi, "line": li, "from": a, "to": b, "mutant": mi, "document": doc}));
                     match try_doc(&doc) {
                         Outcome::Error(e) => {
                             ctx.hit("textual_mutants_rejected");
